@@ -92,6 +92,23 @@ theorem row_sum_zero : type_of% @PG.rateEntry_row_sum_zero := @PG.rateEntry_row_
 /-- distinct count vectors are distinct states -/
 theorem encLC_injective : type_of% @PG.encLC_injective := @PG.encLC_injective   -- (printed statement does not re-elaborate; see the source lemma)
 
+/-! ## hand-written part: glue, non-vacuity examples, counterexamples -/
+/-- non-vacuity: the BFS hypothesis of the matrix-row / headline theorems holds on a concrete two-deme Kingman
+configuration (3 samples, asymmetric migration), and the state list has the expected 9 states -/
+theorem nonvacuous_bfs_lineage :
+    ((bfs (transit .kingman (mkEpoch (D := 2) ![1, 2] ![![0, 1/2], ![1/4, 0]] 0)) (encLC ![3, 0]) 50).map
+      (·.visited.length)) = some 9 := by decide +kernel
+
+/-- non-vacuity for multiple mergers on the block-counting space: Beta(3/2), n = 4, one deme: 5 states -/
+theorem nonvacuous_bfs_block :
+    ((bfs (transit (.beta (3/2) true) (mkEpoch (D := 1) ![1] ![![0]] 0)) (initialState 1 1 4 4) 50).map
+      (·.visited.length)) = some 5 := by decide +kernel
+
+/-- non-vacuity for two loci: n = 2, one deme, r = 1: 9 states -/
+theorem nonvacuous_bfs_two_locus :
+    ((bfs (transit .kingman (mkEpoch (D := 1) ![1] ![![0]] 1)) (initialState 2 1 1 2) 50).map
+      (·.visited.length)) = some 9 := by decide +kernel
+
 end PG.C04
 
 #print axioms PG.C04.driver_matrix
@@ -113,3 +130,6 @@ end PG.C04
 #print axioms PG.C04.absorbing_only_migrate
 #print axioms PG.C04.row_sum_zero
 #print axioms PG.C04.encLC_injective
+#print axioms PG.C04.nonvacuous_bfs_lineage
+#print axioms PG.C04.nonvacuous_bfs_block
+#print axioms PG.C04.nonvacuous_bfs_two_locus
